@@ -305,7 +305,8 @@ func c17One(c *hx.Ctx, e *c17Enc, n int, a []int) {
 	case err != nil:
 		c.Count("outcome:err")
 		if rep {
-			c.Count("note:representable-but-rejected")
+			c17Fail(c, hx.Failure{Class: "over-rejection-" + e.name, What: "a representable argument tuple with a sufficient buffer is rejected", Input: in,
+				Expected: "stream", Actual: "error: " + err.Error()})
 		}
 	default:
 		c.Count("outcome:stream")
@@ -504,7 +505,8 @@ func c17J2kOne(c *hx.Ctx, n int, a []int) {
 	case err != nil:
 		c.Count("outcome:err")
 		if rep {
-			c.Count("note:representable-but-rejected")
+			c17Fail(c, hx.Failure{Class: "over-rejection-j2k", What: "a representable parameter set with a sufficient buffer is rejected", Input: in,
+				Expected: "stream", Actual: "error: " + err.Error()})
 		}
 	default:
 		c.Count("outcome:stream")
@@ -593,6 +595,9 @@ func c17J2k(c *hx.Ctx) {
 		a := append([]int{}, base...)
 		a[0], a[1], a[14] = 8, 8, 65536
 		c17J2kOne(c, need(a), a)
+		b := append([]int{}, base...)
+		b[0], b[1], b[14] = 8, 8, 65535
+		c17J2kOne(c, need(b), b)
 	}
 	for i := 0; i < k; i++ {
 		a := append([]int{}, base...)
@@ -957,6 +962,9 @@ func c17CodecCase(c *hx.Ctx, name string, cd codec.Codec, decode func([]byte) (c
 	case p:
 		cl := "codec-" + name + "-panic"
 		switch {
+		case ptag == "typed-nil" && name == "j2klossless":
+			// residue after 73f59a6: extractLosslessMCTParameters still calls GetParameter on the typed nil
+			cl = "codec-j2klossless-typed-nil-mct-panic"
 		case ptag == "typed-nil":
 			cl = "codec-typed-nil-parameters-panic"
 		case strings.Contains(name, "jpegls") && c17JlsShort(&fi, frames):
